@@ -17,17 +17,18 @@ import (
 // reachability questions on the product of this graph with the valuation of the body's
 // boolean flag variables (ESP-style: finite domain, no solver).
 type Graph struct {
-	P       *Prog
-	Pkg     *packages.Package
-	Info    *types.Info
-	Fn      *Func
-	Lit     *Lit // nil for a declaration body
-	Body    *ast.BlockStmt
-	Nodes   []*GNode
-	Entry   *GNode
-	Flags   []*types.Var            // tracked boolean locals
-	aliases map[*types.Var]ast.Expr // boolean locals that name a stable condition (see condAlias)
-	flagIx  map[*types.Var]int
+	P           *Prog
+	Pkg         *packages.Package
+	Info        *types.Info
+	Fn          *Func
+	Lit         *Lit // nil for a declaration body
+	Body        *ast.BlockStmt
+	Nodes       []*GNode
+	Entry       *GNode
+	Flags       []*types.Var            // tracked boolean locals
+	aliases     map[*types.Var]ast.Expr // boolean locals that name a stable condition (see condAlias)
+	assignCount map[*types.Var]int
+	flagIx      map[*types.Var]int
 
 	switchTag map[ast.Expr]ast.Expr // case expression -> tag expression (nil tag => tagless)
 }
@@ -559,7 +560,115 @@ func (g *Graph) EdgeFacts(e *GEdge) []Fact {
 		out = append(out, Fact{X: x, Pos: want})
 	}
 	walk(e.Cond, e.Taken)
+	if defs := g.adjacentDefs(e.From); len(defs) > 0 {
+		// the substituted form is an additional fact: rules that identify the variable keep their fact
+		for _, f := range out[:len(out):len(out)] {
+			if x := substIdents(g.Info, f.X, defs); x != f.X {
+				out = append(out, Fact{X: x, Y: f.Y, Pos: f.Pos})
+			}
+		}
+	}
 	return out
+}
+
+// adjacentDefs returns the locals defined by the statements that immediately precede the test node n
+// (`x := E` / `if x := E; cond(x)`), with their defining expressions: between such a definition and the test nothing
+// else runs, so a fact about x is a fact about E. Only variables assigned exactly once are taken; the walk stops at
+// the first node that is not such a definition (at most three definitions).
+func (g *Graph) adjacentDefs(n *GNode) map[types.Object]ast.Expr {
+	if g.aliases == nil {
+		g.aliases = map[*types.Var]ast.Expr{}
+		g.computeAliases()
+	}
+	var out map[types.Object]ast.Expr
+	cur := n
+	for steps := 0; steps < 3; {
+		if len(cur.Pred) != 1 {
+			break
+		}
+		prev := cur.Pred[0].From
+		if prev.Node == nil {
+			cur = prev
+			continue
+		}
+		as, ok := prev.Node.(*ast.AssignStmt)
+		if !ok || as.Tok != token.DEFINE || len(as.Lhs) != 1 || len(as.Rhs) != 1 {
+			break
+		}
+		id, ok := as.Lhs[0].(*ast.Ident)
+		if !ok {
+			break
+		}
+		v, _ := g.Info.Defs[id].(*types.Var)
+		if v == nil || g.assignCount[v] != 1 {
+			break
+		}
+		// a definition further back is only usable when the later ones cannot have changed what it read:
+		// the later definitions must be free of calls other than len/cap
+		if out == nil {
+			out = map[types.Object]ast.Expr{}
+		}
+		out[v] = as.Rhs[0]
+		if hasEffectfulCall(g.Info, as.Rhs[0]) {
+			break
+		}
+		cur = prev
+		steps++
+	}
+	return out
+}
+
+func hasEffectfulCall(info *types.Info, e ast.Expr) bool {
+	found := false
+	ast.Inspect(e, func(n ast.Node) bool {
+		switch t := n.(type) {
+		case *ast.FuncLit:
+			found = true
+		case *ast.UnaryExpr:
+			if t.Op == token.ARROW {
+				found = true
+			}
+		case *ast.CallExpr:
+			if id, ok := ast.Unparen(t.Fun).(*ast.Ident); ok {
+				if b, isB := info.Uses[id].(*types.Builtin); isB && (b.Name() == "len" || b.Name() == "cap") {
+					return true
+				}
+			}
+			if tv, ok := info.Types[t.Fun]; ok && tv.IsType() {
+				return true // conversion
+			}
+			found = true
+		}
+		return !found
+	})
+	return found
+}
+
+// substIdents returns e with every identifier that names a key of defs replaced by its defining expression. Only the
+// spine of comparisons and boolean operators is rebuilt; the leaves are original nodes and keep their type info.
+func substIdents(info *types.Info, e ast.Expr, defs map[types.Object]ast.Expr) ast.Expr {
+	switch t := e.(type) {
+	case *ast.Ident:
+		if o := info.Uses[t]; o != nil {
+			if r, ok := defs[o]; ok {
+				return r
+			}
+		}
+	case *ast.ParenExpr:
+		if x := substIdents(info, t.X, defs); x != t.X {
+			return x
+		}
+	case *ast.UnaryExpr:
+		if x := substIdents(info, t.X, defs); x != t.X {
+			return &ast.UnaryExpr{OpPos: t.OpPos, Op: t.Op, X: x}
+		}
+	case *ast.BinaryExpr:
+		x, y := substIdents(info, t.X, defs), substIdents(info, t.Y, defs)
+		if x != t.X || y != t.Y {
+			return &ast.BinaryExpr{X: x, OpPos: t.OpPos, Op: t.Op, Y: y}
+		}
+	}
+	return e
 }
 
 // condAlias returns E when id is a boolean local defined exactly once by `id := E` in this body, E is free of calls
@@ -638,6 +747,10 @@ func (g *Graph) computeAliases() {
 		}
 		return true
 	})
+	g.assignCount = assigns
+	for v := range addr {
+		assigns[v] += 2
+	}
 	for v, e := range defs {
 		if assigns[v] != 1 || addr[v] {
 			continue
